@@ -103,7 +103,7 @@ def _cm(t, st):
 
 def run(ctx):
     t_start = time.time()
-    ok, why = ctx.proof_stage("Props.C01", ["eval_correct", "check_answer_alarm_sound", "placeholder_generic", "unique_sound_exact", "f14_refuted", "f1_refuted", "f7q_refuted"])
+    ok, why = ctx.proof_stage("Props.C01", ["eval_correct", "check_answer_alarm_sound", "placeholder_generic", "unique_sound_exact", "f14_refuted", "f14b_refuted", "f1_refuted", "f7q_refuted"])
     if not ok:
         ctx.violation({"kind": "proof", "broken": why}, no_input=True)
         return
@@ -111,7 +111,7 @@ def run(ctx):
     rng = ctx.rng
     phase = {"proof": round(time.time() - t_start, 1)}
     t0 = time.time()
-    progs, items = sc.fragment_items(rng, ctx.n(28, 400), 3, 3, 6, extra=[(pg.shape_andor, ctx.n(60, 800))])
+    progs, items = sc.fragment_items(rng, ctx.n(28, 330), 3, 3, 6, extra=[(pg.shape_andor, ctx.n(60, 650))])
     mism, perr = sc.run_items(items, cpu=ctx.n(4, 6), timeout=ctx.n(600, 3000))
     phase["solvers"] = round(time.time() - t0, 1)
     if mism:
@@ -160,7 +160,7 @@ def run(ctx):
         else:
             f7 = "(if f7q_query %d %s %s %s then 4 else 0)" % (FUEL, pn, qn, cn)
             names = [pn, qn, cn]
-        exprs.append((names, "((if f14_class %s %s then 1 else 0) + (if f1_class %s %s then 2 else 0) + %s + (if f1_class_wide %s %s then 8 else 0))%%N" % (pn, qn, pn, qn, f7, pn, qn)))
+        exprs.append((names, "((if f14_class %s %s then 1 else 0) + (if f1_class %s %s then 2 else 0) + %s + (if f1_class_wide %s %s then 8 else 0) + (if f14b_class %s %s then 16 else 0))%%N" % (pn, qn, pn, qn, f7, pn, qn, pn, qn)))
         meta.append((k, None, "frag"))
         meta.append((k, None, "class"))
         for sname in ("slg", "rec"):
@@ -208,6 +208,9 @@ def run(ctx):
             class_items["F1"] += 1
         if cls[k] & 8:
             class_items["F1-previous-wide-definition"] += 1
+        in_f14b = bool(cls[k] & 16)
+        if in_f14b:
+            class_items["F14b"] += 1
         if c == logic.V_INCON:
             not_judged["oracle-inconclusive"] += 1
         if c is not None and c >= 10:
@@ -217,6 +220,8 @@ def run(ctx):
             if not f and sname == "slg" and in_f1 and c == 12 and kind == "AmbigDefinite" and sc.guidance_repeats(ans):
                 # input in the class AND the concrete symptom: SLG, definite guidance that itself repeats a bound variable, "solution not covered"
                 f = ctx.match_known(None, "F1")
+            if not f and sname == "slg" and in_f14b and c == 12 and kind == "Unique":
+                f = ctx.match_known(None, "F14b")
             if not f and sname == "slg" and in_f7q and c == 13 and kind == "NoSolution":
                 f = ctx.match_known(None, "F7q")
             if f:
